@@ -293,14 +293,15 @@ func seqEvents(seq []int, text string) []resolver.Event {
 }
 
 func rejectionClass(msg string) string {
+	low := strings.ToLower(msg)
 	switch {
-	case strings.Contains(msg, "incorrect context of directive"):
+	case strings.Contains(low, "incorrect context"):
 		return resolver.IncorrectContext
-	case strings.Contains(msg, "there is no explicit context for closure"):
+	case strings.Contains(low, "no explicit context for closure"):
 		return resolver.NoOpenContext
-	case strings.Contains(msg, "not all explicit contexts are closed"):
+	case strings.Contains(low, "not all explicit contexts are closed"):
 		return resolver.UnclosedContext
-	case strings.Contains(msg, "there is no directive to which"):
+	case strings.Contains(low, "there is no directive to which"):
 		return resolver.OrphanOpen
 	}
 	return "other:" + run.MsgTemplate(msg)
@@ -360,6 +361,12 @@ func c06Eval(t *fw.T, c *fw.Case) {
 	}
 	if strings.HasPrefix(gotRej, "other:") {
 		t.Count("other_rejections")
+		if wantRej != "" {
+			// both reject; the library's words are not among those the classes are told by (the wording is the
+			// library's own business): the verdicts agree, the class cannot be compared
+			t.Count("rejections_agreed_wording_unknown")
+			return
+		}
 		t.Violation("unexpected-rejection:"+gotRej, fmt.Sprintf("a neutral sequence is rejected for another reason: %q; input %s", msg, fw.Short([]byte(text), 400)))
 		return
 	}
